@@ -87,6 +87,22 @@ func e2Family(tier string, amevs []int64) []*Job {
 				return ""
 			}(), CVs: 1, Bundles: true, RecReq: false, MaxDepth: 12, StateCap: cap2}
 			jobs = append(jobs, job(e2scen(fmt.Sprintf("E2-twoview-N4-x%d-%s-%s", x, role, an), 4, x, a, s2), per))
+			if x == other {
+				// a missing transaction reaches the pool (GetTx) before / instead of OnTransaction: the set is then
+				// completed by processMissingTx inside a recovery request (found D15 this way)
+				s3 := E2Spec{Views: 1, Proposals: "A", TxA: []H{103}, Responses: "A", Commits: "AG", PreCommits: func() string {
+					if a >= 0 {
+						return "AG"
+					}
+					return ""
+				}(), PoolFirst: true, MaxDepth: 10, StateCap: cap1}
+				jobs = append(jobs, job(e2scen(fmt.Sprintf("E2-poolfirst-N4-x%d-%s-%s", x, role, an), 4, x, a, s3), per))
+				// the same with a proposal whose completed block X's VerifyBlock rejects (102 is invalid for X): the
+				// early (pre)commits must still be verified (found D17 this way)
+				s4 := s3
+				s4.TxA = []H{102, 103}
+				jobs = append(jobs, job(e2scen(fmt.Sprintf("E2-poolfirst-rejected-block-N4-x%d-%s-%s", x, role, an), 4, x, a, s4), per))
+			}
 			if a >= 0 && x == other {
 				fp := e2scen(fmt.Sprintf("E2-oneview-preblock-fails-once-N4-x%d-%s-%s", x, role, an), 4, x, a, s1)
 				fp.FailPre = 1
